@@ -100,7 +100,7 @@ void Runner<T, E>::run_impl(Plan const& p, std::vector<std::size_t> const& calls
             if (integ_ == PLAIN)
             {
                 PI in(pf, p.dims, params);
-                PI inner(pf, p.dims, params);
+                PI inner(pf, p.dims + 1, params);
                 nested = [&inner]() {
                     E g(4711);
                     (void) hep::plain_iteration(inner, 3, g);
@@ -113,8 +113,8 @@ void Runner<T, E>::run_impl(Plan const& p, std::vector<std::size_t> const& calls
             else if (integ_ == VEGAS)
             {
                 VI in(vf, p.dims, params);
-                VI inner(vf, p.dims, params);
-                hep::vegas_pdf<T> const inner_pdf(p.dims, p.bins);
+                VI inner(vf, p.dims + 1, params);
+                hep::vegas_pdf<T> const inner_pdf(p.dims + 1, p.bins);
                 nested = [&inner, &inner_pdf]() {
                     E g(4711);
                     (void) hep::vegas_iteration(inner, 3, inner_pdf, g);
@@ -127,7 +127,7 @@ void Runner<T, E>::run_impl(Plan const& p, std::vector<std::size_t> const& calls
             else
             {
                 MI in(mf, p.dims, mm, p.mapd ? p.mapd : p.dims, p.chan, params);
-                MI inner(mf, p.dims, mm, p.mapd ? p.mapd : p.dims, p.chan, params);
+                MI inner(mf, p.dims + 1, mm, (p.mapd ? p.mapd : p.dims) + 1, p.chan, params);
                 std::vector<T> const inner_weights(p.chan, T(1) / T(p.chan));
                 nested = [&inner, &inner_weights]() {
                     E g(4711);
